@@ -11,7 +11,7 @@ PLAN = {
     'C06': ['harness.c06_decoder'],
     'C07': ['harness.c07_evolution'],
     'C08': ['harness.c08_validators', 'harness.c08_generated'],
-    'C11': ['harness.c11_layout'],
+    'C11': ['harness.c11_layout', 'harness.c11_text'],
     'C13': ['harness.c13_privacy'],
     'C14': ['harness.c14_client'],
     'C18': ['harness.c18_paths', 'harness.c18_emit'],
